@@ -101,6 +101,11 @@ package samlidp
 //@ assert@call[C19] WriteHeader #1 (rw http.ResponseWriter, code int) uses previous Service, previousErr error, service Service registry_in_step:
 //@    registered(s, service.Metadata.EntityID) &&
 //@    (previousErr == nil && previous.Metadata.EntityID != service.Metadata.EntityID ==> !registered(s, previous.Metadata.EntityID))
+//@ -- the registry follows the store, never the other way round: entries change only after the store accepted the write,
+//@ -- so a failed write leaves the registry (and what a restarted server would rebuild from the store) unchanged
+//@ assert@store[C19] serviceProviders[] #1 (k string, v *saml.EntityDescriptor) registered_only_after_store_write: PutDone(s.Store)
+//@ assert@call[C19] delete #1 (m map[string]*saml.EntityDescriptor, k string) unregistered_only_after_store_write: PutDone(s.Store)
 //@ contract (*Server).HandleDeleteService
+//@ assert@call[C19] delete #1 (m map[string]*saml.EntityDescriptor, k string) unregistered_only_after_store_delete: DeleteDone(s.Store)
 //@ assert@call[C19] WriteHeader #1 (rw http.ResponseWriter, code int) uses service Service unregistered:
 //@    !registered(s, service.Metadata.EntityID)
